@@ -135,6 +135,9 @@ func c06Check(c *Case) []Violation {
 	if c.Kind == "veto" {
 		return c06Dominance(c)
 	}
+	if c.Kind == "large" {
+		return c06LargeCheck(c)
+	}
 	cfg := cfgFromParams(c.Params)
 	req := eleRequest(cfg)
 	base, links, errs := eleIndices(req)
@@ -217,7 +220,7 @@ func c06Check(c *Case) []Violation {
 		}
 	}
 	// weight scaling by powers of two
-	for fi, f := range []float64{2, 0.5, 4} {
+	for fi, f := range []float64{1.0 / (1 << 40), 2, 1 << 40} { // 2^-40 (every k below any absolute epsilon), 2, 2^40
 		if big && fi > 0 {
 			break
 		}
@@ -407,8 +410,111 @@ func c06VetoAndMatrixGrids(s *Shard) {
 	}
 }
 
+// c06Large: requests with 63..130 alternatives (beyond one machine word of indices): a few distinct profiles among
+// many identical fillers, so that the distillations meet ties between proper subsets; every listing rotation that moves
+// another profile to the far end. Dominance, identity and listing-order clauses on each.
+func c06LargeCheck(c *Case) []Violation {
+	n := int(asF(c.Params["n"]))
+	shape := int(asF(c.Params["shape"]))
+	profiles := [][][]float64{
+		{{5, 5}, {4.5, 5}},                         // top, near (dominated by top, indifferent to it), fillers
+		{{5, 5}, {4.5, 5}, {5, 1}, {3, 5}},         // + two more profiles
+		{{5, 5}, {5, 5}, {3, 5}, {3, 5}, {2.5, 5}}, // identical pairs at two levels
+	}[shape]
+	ids := make([]string, n)
+	vals := make([][]float64, n)
+	for i := range ids {
+		ids[i] = fmt.Sprintf("n%03d", (i*37)%n) // ids in a scrambled order (37 is coprime to every n used)
+		vals[i] = []float64{1, 5}               // fillers: as good as the best on c2, far behind on c1 (partial credibility, no veto)
+	}
+	// the distinct profiles sit at the listing positions given by the case (first, around 64, last)
+	pos := toInts(c.Params["positions"])
+	for k, p := range pos {
+		if k < len(profiles) {
+			vals[p%n] = profiles[k]
+		}
+	}
+	build := func(rot int) M {
+		ri := make([]string, n)
+		rv := make([][]float64, n)
+		for i := range ids {
+			ri[i], rv[i] = ids[(i+rot)%n], vals[(i+rot)%n]
+		}
+		req := genericRequest("electreIII", []string{"c1", "c2"}, -1, ri, rv, ri, []float64{1, 2})
+		for _, e := range asM(asM(req["methodParameters"])["electreCriteria"]) {
+			asM(e)["v"] = M{"b": 100.0}
+		}
+		return req
+	}
+	base, links, errs := eleIndices(build(0))
+	if base == nil {
+		return []Violation{viol(c, "C06/rejected", "valid ELECTRE III request with %d alternatives rejected: %s", n, errs)}
+	}
+	var vs []Violation
+	for a := 0; a < n; a++ {
+		for b := 0; b < n; b++ {
+			if a == b {
+				continue
+			}
+			ia, ib := base[ids[a]], base[ids[b]]
+			if vals[a][0] >= vals[b][0] && vals[a][1] >= vals[b][1] {
+				if ia[0] > ib[0] || ia[1] > ib[1] {
+					return append(vs, viol(c, "C06/dominance-class", "%d alternatives: %s %v is at least as good as %s %v on every criterion but has indices %v vs %v", n, ids[a], vals[a], ids[b], vals[b], ia, ib))
+				}
+				if !contains(links[ids[a]], ids[b]) {
+					return append(vs, viol(c, "C06/dominance-link", "%d alternatives: %s is at least as good as %s on every criterion but does not list it", n, ids[a], ids[b]))
+				}
+			}
+			if vals[a][0] == vals[b][0] && vals[a][1] == vals[b][1] && ia != ib {
+				return append(vs, viol(c, "C06/identical", "%d alternatives: %s and %s have identical values but indices %v vs %v", n, ids[a], ids[b], ia, ib))
+			}
+		}
+	}
+	for _, rot := range []int{1, n / 2, n - 1} {
+		got, _, e := eleIndices(build(rot))
+		if got == nil {
+			return append(vs, viol(c, "C06/rejected", "rotated request rejected: %s", e))
+		}
+		for id, v := range base {
+			if got[id] != v {
+				return append(vs, viol(c, "C06/listing-order", "%d alternatives: rotating the listings by %d changes the indices of %s from %v to %v", n, rot, id, v, got[id]))
+			}
+		}
+	}
+	if cur != nil {
+		classes := map[int]bool{}
+		for _, v := range base {
+			classes[v[0]] = true
+		}
+		cur.Outcome(len(classes) >= 2, "large", n, shape, fmt.Sprint(pos))
+	}
+	return vs
+}
+
+func c06Large(s *Shard) {
+	sizes := []int{63, 64, 65, 66, 130}
+	if !quick(s) {
+		sizes = []int{31, 32, 33, 63, 64, 65, 66, 127, 128, 129, 130, 257}
+	}
+	s.Bounds["large_instances"] = sizes
+	for _, n := range sizes {
+		for shape := 0; shape < 3; shape++ {
+			for _, pos := range [][]int{{0, 1, 2, 3, 4}, {n - 1, n - 2, n - 3, n - 4, n - 5}, {0, n - 1, 1, n - 2, n / 2}, {n - 1, 0, n / 2, 1, n - 2}} {
+				if !s.Take() {
+					continue
+				}
+				c := &Case{Prop: "C06", Kind: "large", Params: M{"n": n, "shape": shape, "positions": pos}}
+				s.Evals += 4
+				s.Begin(c)
+				s.Report(c06Check(c))
+			}
+		}
+	}
+}
+
 func c06Run(s *Shard) {
 	cur = s
+	c06Large(s)
 	c06VetoAndMatrixGrids(s)
 	liteEnum = quick(s)
 	sampled := 0
